@@ -2736,13 +2736,28 @@ func c09R4GcIndex(c *Ctx, R4 string, h *c09Helpers) {
 				}
 				return out
 			}
+			// Tag on the rebuilt resolver: the method itself, or Tag of a tagger interface that is bound to it
+			tagArgs := func(call ssa.CallInstruction, bind c09Bind) (a []ssa.Value, ok bool) {
+				cc := call.Common()
+				if CalleeName(call) == c09nTag && len(cc.Args) == 4 {
+					return cc.Args, isNew(bind(cc.Args[0]), newRes) || isNew(cc.Args[0], newRes)
+				}
+				if cc.IsInvoke() && cc.Method.Name() == "Tag" && len(cc.Args) == 3 {
+					rv := bind(cc.Value)
+					if mi, isMI := rv.(*ssa.MakeInterface); isMI {
+						rv = mi.X
+					}
+					return append([]ssa.Value{rv}, cc.Args...), rv != nil && isNew(rv, newRes)
+				}
+				return nil, false
+			}
 			tagRef := inBody(c09EffectSites(body, c09Identity, func(call ssa.CallInstruction, bind c09Bind) bool {
-				a := call.Common().Args
-				return CalleeName(call) == c09nTag && len(a) == 4 && k != nil && (isNew(bind(a[0]), newRes) || isNew(a[0], newRes)) && bind(a[3]) != nil && c09SameKey(bind(a[3]), k) && inObj(bind(c09CellOrValue(a[2])))
+				a, ok := tagArgs(call, bind)
+				return ok && k != nil && bind(a[3]) != nil && c09SameKey(bind(a[3]), k) && inObj(bind(c09CellOrValue(a[2])))
 			}, 2))
 			tagDg := inBody(c09EffectSites(body, c09Identity, func(call ssa.CallInstruction, bind c09Bind) bool {
-				a := call.Common().Args
-				return CalleeName(call) == c09nTag && len(a) == 4 && (isNew(bind(a[0]), newRes) || isNew(a[0], newRes)) && digestStringOfObj(a[3], bind)
+				a, ok := tagArgs(call, bind)
+				return ok && digestStringOfObj(a[3], bind)
 			}, 2))
 			idx := inBody(c09EffectSites(body, c09Identity, func(call ssa.CallInstruction, bind c09Bind) bool {
 				a := call.Common().Args
